@@ -12,11 +12,16 @@
       shorter than the cursor always forces a snapshot
       ([verify_truncated_without_flag_snapshots]), and so does an overwritten
       frame before the cursor ([verify_overwritten_prev_frame_snapshots]);
-    REFUTED (F2, known finding): evidence (C) is not sufficient — when the
-    application restarted the WAL with a generation shorter than the old cursor,
-    committed frames it had appended to the old generation beyond the cursor are
-    intact in the file, verify continues incrementally from the new header and
-    they are never replicated ([c04_restart_shorter_refuted], byte-exact witness).
+    F2 (repaired in /repo, "fix: snapshot when the WAL was restarted while the
+    database was not being replicated"): evidence (C) was not sufficient in a
+    session that had not synced yet — when the application restarted the WAL with
+    a generation shorter than the old cursor while litestream was away, committed
+    frames it had appended to the old generation beyond the cursor were intact in
+    the file, verify continued from the new header and they were never replicated
+    ([c04_restart_shorter_refuted], byte-exact witness, now a statement about
+    [verify_gen false]).  With the repair evidence (C) additionally needs
+    lastSyncedWALOffset <> 0, and [verify_fresh_session_salt_change_snapshots]
+    holds for every WAL.
     The other disturbances (replaced database file, removed or reset local state,
     database behind replica) are decided by the harness scenarios with the
     restore-equals-source and replica-advances oracles. *)
@@ -25,13 +30,13 @@ From LS Require Import Base.Bytes Base.PMap Wal.Reader Db.Verify Db.Sync Db.Proo
 Import ListNotations.
 Open Scope N_scope.
 
-Theorem verify_first_sync_snapshots : forall ps last st wal fd,
-  verify ps 0 last st wal fd = VOk (mkInfo WALHeaderSize 0 0 0 true false).
+Theorem verify_first_sync_snapshots : forall ps last st lo wal fd,
+  verify ps 0 last st lo wal fd = VOk (mkInfo WALHeaderSize 0 0 0 true false).
 Proof. exact Proofs.verify_first_sync. Qed.
 Print Assumptions verify_first_sync_snapshots.
 
-Theorem verify_incremental_evidence : forall ps pos last st w fd info,
-  verify ps pos last st (Some w) fd = VOk info -> i_snap info = false ->
+Theorem verify_incremental_evidence : forall ps pos last st lo w fd info,
+  verify ps pos last st lo (Some w) fd = VOk info -> i_snap info = false ->
   let off := l_off last + l_size last in
   let wsz := N.of_nat (length w) in
   let saltMatch := N.eqb (be32 w 16) (l_s1 last) && N.eqb (be32 w 20) (l_s2 last) in
@@ -43,7 +48,7 @@ Theorem verify_incremental_evidence : forall ps pos last st w fd info,
         exists d, fd = Some d /\
           last_page_match last (be32 w (N.to_nat (off - fsz))) (be32 w (N.to_nat (off - fsz) + 8))
                           (be32 w (N.to_nat (off - fsz) + 12)) d = true))
-   \/ (off <= wsz /\ saltMatch = false /\ i_offset info = WALHeaderSize /\
+   \/ (off <= wsz /\ saltMatch = false /\ lo <> 0 /\ i_offset info = WALHeaderSize /\
        i_s1 info = be32 w 16 /\ i_s2 info = be32 w 20 /\
        (exists d, fd = Some d /\
           last_page_match last (be32 w (N.to_nat (off - fsz))) (be32 w (N.to_nat (off - fsz) + 8))
@@ -54,12 +59,12 @@ Print Assumptions verify_incremental_evidence.
 
 Theorem verify_truncated_without_flag_snapshots : forall ps pos last w fd,
   pos <> 0 -> N.of_nat (length w) < l_off last + l_size last ->
-  exists info, verify ps pos last false (Some w) fd = VOk info /\ i_snap info = true.
+  forall lo, exists info, verify ps pos last false lo (Some w) fd = VOk info /\ i_snap info = true.
 Proof. exact Proofs.verify_truncated_without_flag_snapshots_lemma. Qed.
 Print Assumptions verify_truncated_without_flag_snapshots.
 
-Theorem verify_overwritten_prev_frame_snapshots : forall ps pos last st w d info,
-  verify ps pos last st (Some w) (Some d) = VOk info ->
+Theorem verify_overwritten_prev_frame_snapshots : forall ps pos last st lo w d info,
+  verify ps pos last st lo (Some w) (Some d) = VOk info ->
   let off := l_off last + l_size last in
   let fsz := ps + WALFrameHeaderSize in
   off <= N.of_nat (length w) -> WALHeaderSize < off - fsz ->
@@ -69,11 +74,23 @@ Theorem verify_overwritten_prev_frame_snapshots : forall ps pos last st w d info
 Proof. exact Proofs.verify_overwritten_prev_frame_snapshots_lemma. Qed.
 Print Assumptions verify_overwritten_prev_frame_snapshots.
 
-(** F2: incremental answer while a committed transaction of the previous
+(** F2 repaired (fix commit in /repo): with a fresh in-memory state - nothing synced
+    since this DB object was opened, lastSyncedWALOffset = 0 - a changed header salt
+    never lets verify continue incrementally, whatever the WAL holds. *)
+Theorem verify_fresh_session_salt_change_snapshots : forall ps pos last st w fd info,
+  verify ps pos last st 0 (Some w) fd = VOk info ->
+  (N.eqb (be32 w 16) (l_s1 last) && N.eqb (be32 w 20) (l_s2 last)) = false ->
+  l_off last + l_size last <= N.of_nat (length w) ->
+  i_snap info = true.
+Proof. exact Proofs.verify_fresh_session_salt_change_snapshots_lemma. Qed.
+Print Assumptions verify_fresh_session_salt_change_snapshots.
+
+(** F2 as it was BEFORE that repair ([verify_gen false] = the decision without the
+    fresh-session rule): incremental answer while a committed transaction of the previous
     generation lies, intact and never copied, beyond the cursor *)
 Theorem c04_restart_shorter_refuted :
   exists ps pos last w fd info r,
-    verify ps pos last false (Some w) fd = VOk info /\ i_snap info = false /\
+    verify_gen false ps pos last false 0 (Some w) fd = VOk info /\ i_snap info = false /\
     i_offset info = WALHeaderSize /\
     new_reader_with_offset w (l_off last + l_size last) (l_s1 last) (l_s2 last) = OffOk r /\
     pr_map (page_map (wal_frames ps w) r 0) <> [].
